@@ -5,7 +5,7 @@
    (Check/C01.v; labelled tested-only in the evidence).
    Only statements, closed by `exact`, each followed by Print Assumptions. *)
 From Verif Require Import Base.GoSem Css.FindRoot Css.FindRootProofs
-  Layout.PageLoop Layout.PageLoopProofs Layout.PageLoopExample
+  Layout.PageLoop Layout.PageLoopProofs Layout.PageLoopLater Layout.PageLoopExample
   Css.C01RefChain Css.C01RefChainProofs.
 From Coq Require Import List ZArith Arith.
 Import ListNotations.
@@ -145,8 +145,9 @@ Example C01_later_round_fixed_returns :
 Proof. exact later_round_fixed_returns. Qed.
 
 (* Full statement for the later rounds (pages re-used when up to date): kept
-   visible; proved for the first round (C01_page_loop_terminates) and for documents
-   that never set a re-make flag (C01_single_round_without_remake_flags). *)
+   visible as a Definition; PROVED below (C01_later_rounds_terminate_holds) with
+   no hypothesis beyond the three of the first round (in particular nothing is
+   asked of R_eqb = ResumeStack.Equals). *)
 Definition C01_later_rounds_terminate_statement : Prop :=
   forall (R : Type) (R_eqb : R -> R -> bool)
          (layout_content : option R -> nat -> (option R * brk * nat) * (bool * bool))
@@ -158,6 +159,37 @@ Definition C01_later_rounds_terminate_statement : Prop :=
     forall max_loops b right, exists r,
       layout_document R R_eqb layout_content layout_blank state_changed
         (first_round_fuel R mu F) max_loops b right = Ok r.
+
+Theorem C01_later_rounds_terminate_holds : C01_later_rounds_terminate_statement.
+Proof. exact later_rounds_terminate. Qed.
+Print Assumptions C01_later_rounds_terminate_holds.
+
+(* every single round, from the pageMaker / page list left by the previous one:
+   makeAllPages returns and re-establishes the invariant
+   (len(pageMaker) = len(pages) + 1: pageMaker[i+1] of the re-use branch exists) *)
+Theorem C01_every_round_terminates :
+  forall (R : Type) (R_eqb : R -> R -> bool)
+         (layout_content : option R -> nat -> (option R * brk * nat) * (bool * bool))
+         (layout_blank : nat -> nat * (bool * bool)) (state_changed : nat -> bool)
+         (mu : option R -> nat) (F : nat),
+    (forall r fn r' b fn' fl, layout_content r fn = ((Some r', b, fn'), fl) -> mu (Some r') < mu r) ->
+    (forall r fn r' b fn' fl, layout_content r fn = ((r', b, fn'), fl) -> fn' <= F) ->
+    (forall fn fn' fl, layout_blank fn = (fn', fl) -> fn' <= fn /\ (0 < fn -> fn' < fn)) ->
+    forall pm pages, round_inv R mu F pm pages ->
+    exists pm' pages',
+      make_all_pages R R_eqb layout_content layout_blank state_changed
+        (first_round_fuel R mu F) pm (length pages) 0 0 [] = Ok (pm', pages') /\
+      round_inv R mu F pm' pages'.
+Proof. exact round_terminates. Qed.
+Print Assumptions C01_every_round_terminates.
+
+(* later rounds are reached: 2 rounds with pages 0, 1, 3 re-used (PagesWanted on
+   page 2), 8 rounds when ContentChanged is set on every round *)
+Example C01_wanted_two_rounds :
+  layout_document nat Nat.eqb wanted_content (fun fn => (0, (false, false))) (fun _ => false)
+    (first_round_fuel nat wanted_mu 0) None BAny true
+  = Ok (2, [PContent; PContent; PContent; PContent]).
+Proof. exact wanted_two_rounds. Qed.
 
 (* the hypotheses are inhabited: a greedy page maker with the pageIsEmpty rule *)
 Theorem C01_greedy_instance_terminates : forall hs H b right,
